@@ -213,6 +213,12 @@ def gen_plan(rng, cfg, tier, profile):
     plan['db_faults'] = faults
   elif profile in ('c04', 'c09', 'c19', 'c20') and rng.random() < 0.3:
     plan['db_faults'] = {str(rng.randrange(0, 30)): ['slow', rng.choice([0.3, 1.5, 5.0])]}
+  if profile == 'c02' and plan['wmode'] == 'writer' and rng.random() < 0.5:
+    plan['db_faults'] = {str(rng.randrange(0, 16)): ['raise', 'ioerror'] for _ in range(rng.randint(1, 3))}
+  if profile == 'c20' and rng.random() < 0.5:
+    # failing creates must still be charged against MAX_CREATES_PER_MINUTE
+    plan.setdefault('db_faults', {}).update(
+      {str(rng.randrange(0, 24)): ['raise', 'enospc'] for _ in range(rng.randint(1, 6))})
   if profile == 'c19' and rng.random() < 0.5:
     plan.setdefault('db_faults', {})[str(rng.randrange(0, 12))] = ['raise', 'ioerror']
   if rng.random() < 0.3:
